@@ -91,7 +91,10 @@ Definition run_order (s : sexp) : sexp :=
         match tags_of_sexp q_of_sexp tags, q_of_sexp aux with
         | Some w, Some eps =>
           match all_some (map (fold_prog Qmult tbl w x) o) with
-          | Some keys => L [ofBool (chain (q_ge_tol eps) keys); A (first_break (q_ge_tol eps) keys 0)]
+          | Some keys =>
+            let qmin := fold_right (fun q m => if Qle_bool q m then q else m) 1%Q keys in
+            L [ofBool (chain (q_ge_tol eps) keys); A (first_break (q_ge_tol eps) keys 0);
+               L [A (Qnum (Qred qmin)); A (Zpos (Qden (Qred qmin)))]]
           | None => L [A 0; A (-2)]
           end
         | _, _ => bad_case
